@@ -535,7 +535,7 @@ def strat_methods(draw, tier="quick"):
     kind = draw(st.sampled_from(["loc", "loc", "tx", "tx", "tx", "feat", "gene", "fc", "collection", "vc"]))
     sp = {"kind": kind}
     if kind == "loc":
-        o = draw(S.location_spec(max_k=4, allow_overlap=draw(st.integers(0, 4)) == 0, strands=["+", "-", "+", "-", "."], shift_prob=0))
+        o = draw(S.location_spec(max_k=4, allow_overlap=draw(st.integers(0, 4)) == 0, allow_nested=True, strands=["+", "-", "+", "-", "."], shift_prob=0))
         o2 = draw(S.location_spec(max_k=3, strands=["+", "-", "."], shift_prob=0))
         if sum(x[1] - x[0] for x in o["blocks"]) == 0:
             o["blocks"][0][1] += 1
